@@ -1000,7 +1000,29 @@ impl Device {
                 if std::fs::write(&src, &body).is_err() {
                     return "skip".into();
                 }
-                let Ok(secret) = Secret::try_from(src.clone()) else { return "skip".into() };
+                let Ok(mut secret) = Secret::try_from(src.clone()) else { return "skip".into() };
+                // attachments: further external files as user-data fields of the
+                // same secret (several blobs in one secret directory)
+                let n_attach = ju64(s, "attach") % 3;
+                let mut attach_bodies: Vec<Vec<u8>> = vec![];
+                for k in 0..n_attach {
+                    let abody = xcontent(val.wrapping_mul(31).wrapping_add(k + 1), 300 + 50 * k as usize);
+                    let apath = src_dir.join(format!("attach-{val}-{k}.txt"));
+                    if std::fs::write(&apath, &abody).is_err() {
+                        continue;
+                    }
+                    let Ok(asecret) = Secret::try_from(apath.clone()) else { continue };
+                    let ameta = SecretMeta::new(format!("attachment {k}"), asecret.kind());
+                    let mut b = [0x33u8; 16];
+                    b[14] = k as u8;
+                    b[15] = (val & 0xff) as u8;
+                    b[6] = 0x40 | (b[6] & 0x0f);
+                    b[8] = 0x80 | (b[8] & 0x3f);
+                    if let Secret::File { user_data, .. } = &mut secret {
+                        user_data.push(SecretRow::new(uuid::Uuid::from_bytes(b), ameta, asecret));
+                        attach_bodies.push(abody);
+                    }
+                }
                 let meta = make_meta(&secret, ju64(s, "label"), ju64(s, "tags"), jbool(s, "fav"), marker_labels, val);
                 let (fid, res_id) = if opn == "xcreate" {
                     let Some(fid) = self.folder_of_slot(ju64(s, "folder")) else { return "skip".into() };
@@ -1031,6 +1053,14 @@ impl Device {
                         if let Secret::File { content: FileContent::External { checksum, .. }, .. } = row.secret() {
                             if let Ok(mut g) = XPLAIN.lock() {
                                 g.insert(hex::encode(checksum), sha256_hex(&body));
+                            }
+                        }
+                        for (k, field) in row.secret().user_data().fields().iter().enumerate() {
+                            if let (Secret::File { content: FileContent::External { checksum, .. }, .. }, Some(ab)) = (field.secret(), attach_bodies.get(k)) {
+                                if let Ok(mut g) = XPLAIN.lock() {
+                                    g.insert(hex::encode(checksum), sha256_hex(ab));
+                                }
+                                rec.stats.count("kind.external_attachment");
                             }
                         }
                         if let Some(f) = self.model.folders.get_mut(&fid) {
@@ -1189,6 +1219,35 @@ impl Device {
             }
         }
         Ok(())
+    }
+}
+
+/// SQLite (WAL mode) checkpoints and removes its `-wal` / `-shm` files when
+/// the last connection closes, and `async_sqlite` closes on a worker thread
+/// some time after the client handle is dropped. Copying the data directory
+/// before that has happened can pair a main file and a WAL from different
+/// moments (committed records missing in the copy). Wait until the files are
+/// gone (bounded), so that a copied directory is the closed database.
+pub fn wait_sqlite_closed(dir: &Path) {
+    fn any_wal(p: &Path) -> bool {
+        let Ok(rd) = std::fs::read_dir(p) else { return false };
+        for e in rd.flatten() {
+            let path = e.path();
+            if path.is_dir() {
+                if any_wal(&path) {
+                    return true;
+                }
+            } else if let Some(n) = path.file_name().and_then(|n| n.to_str()) {
+                if n.ends_with("-wal") || n.ends_with("-shm") {
+                    return true;
+                }
+            }
+        }
+        false
+    }
+    let t0 = std::time::Instant::now();
+    while any_wal(dir) && t0.elapsed() < std::time::Duration::from_secs(10) {
+        std::thread::sleep(std::time::Duration::from_millis(2));
     }
 }
 
